@@ -2,7 +2,7 @@ SPECIFICATION TSpec
 CONSTANTS Devs = @DEVS@
           Alphabet = {}
           MaxLen = 0
-INVARIANTS AcceptedInside StoredResolvesInside InsideAccepted DevReport
+INVARIANTS TAcceptedInside TStoredResolvesInside InsideAccepted DevReport
 CONSTRAINT TraceConstraint
 POSTCONDITION TracePost
 CHECK_DEADLOCK FALSE
